@@ -23,8 +23,18 @@ def run(ctx):
         ctx.log("replayed 1 case: %d mismatches" % summ["mismatches"])
         return
 
-    mc = ctx.model_check("MCServeLoop", sc.c08_mc_cfg("C8InputsMC" if quick else "C8InputsMC3"), sc.C08_INVS, workers=6, timeout=900, name="MCServeLoop_c08")
-    res = sc.emit_parallel(ctx, "EmitServeLoop", sc.serve_emit_cfgs(ctx, "c08", 4 if quick else 6))
+    import concurrent.futures as cf
+    with cf.ThreadPoolExecutor(max_workers=2) as ex:
+        fmc = ex.submit(ctx.model_check, "MCServeLoop", sc.c08_mc_cfg("C8InputsMC" if quick else "C8InputsMC3"), sc.C08_INVS, workers=6, timeout=1500,
+                        name="MCServeLoop_c08", heap=sc.EMIT_JVM if quick else None)
+        # non-vacuity: the code-like deviation (an error of the stream met inside a response that was handed to a waiting requester
+        # is reported to the requester only, the serve loop skips on) must break the stream-level rule
+        fdv = ex.submit(ctx.tlc, "MCServeLoop", sc.c08_mc_cfg("C8InputsMC", dev='{"HandoffNotSticky"}'), workers=2, timeout=900,
+                        name="MCServeLoop_c08dev", heap=sc.EMIT_JVM)
+        res = sc.emit_parallel(ctx, "EmitServeLoop", sc.serve_emit_cfgs(ctx, "c08", 4 if quick else 6))
+        mc, dv = fmc.result(), fdv.result()
+    if not ({"C08_StreamLevelNeverDelivered", "C08_LocalCloseIrrelevant", "C08_IsReference", "C08_ResponseToRequester"} & set(dv.violated)):
+        raise verif.Undecided("design self-test: deviation HandoffNotSticky violates none of the stream-level invariants:\n" + dv.out[-1500:])
     vecs = sc.collect(res, r"c08_vectors_\d+\.ndjson")
     nvec = sum(1 for f in vecs for _ in open(f))
     ctx.log("TLC emitted %d vectors" % nvec)
@@ -47,6 +57,7 @@ def run(ctx):
         "evaluations": summ["evaluations"], "handler_invocations": summ["handler_invocations"],
         "distinct_nontrivial": summ["distinct_classes"], "nontrivial_evaluations": summ["nontrivial"],
         "mismatches": summ["mismatches"], "binding_selftest_corruptions_rejected": nself,
+        "deviation_caught": "HandoffNotSticky -> " + ", ".join(dv.violated),
         "exhaustive": "every prefix (<= %d items over %d continuing items) x 61 terminators (49 constructs nested at depth 1-3 of a stanza / "
                       "foreign element: comment, PI, directive, stream error, restart, other stream element, mismatched end tag; "
                       "11 top-level: text, comment, PI, directive, restart, other stream element, closing tag, EOF, stray end tag, "
@@ -54,7 +65,10 @@ def run(ctx):
                       "Close() (so that every terminator arrives with the output stream open and closed) and stanzas from the own bare / "
                       "another entity's / a no-longer-own address; the %d kinds of session (initiated / received x client / server "
                       "namespace x application / library negotiator x header names the same / another / no address x binding) rotate "
-                      "against the vectors (every kind meets every terminator and program cycle)" % (
+                      "against the vectors (every kind meets every terminator and program cycle); PENDING REQUESTS: the application has a request "
+                      "pending and the next stanza is its response (handed to the waiting requester, which reads 0 / 1 / 2 / 3 / 5 / 13 tokens and "
+                      "closes it): a plain response within every prefix that contains one x every terminator, and a response with each of the 7 "
+                      "constructs at depth 1 / 2 / 3 / at its end (28) behind every prefix of <= 1 item and every prefix with a plain response" % (
                           2 if quick else 3, 6 if quick else 8, summ["sessions"]),
         "rule": "distinct = (session kind, number of invocations, outcome class) classes; non-trivial = at least one handler invocation; "
                 "the session's own address in the vectors is taken from LocalAddr().Bare() of the running session and checked against "
@@ -93,9 +107,12 @@ def signature(m):
 def describe(m):
     v = m["vector"]
     closes = [i for i, it in enumerate(v["items"]) if it["k"] == "lclose"]
-    return "session %s (own address %s) served %s%s with handler programs %s: %s; handler log %s; Serve returned %s %r" % (
+    resps = [i for i, it in enumerate(v["items"]) if it["k"] == "el" and it.get("kind") == "resp"]
+    return "session %s (own address %s) served %s%s%s with handler programs %s: %s; handler log %s; Serve returned %s %r" % (
         m["sess"], m["own"], m["input"][:400],
         (" - the local side called Close() before item(s) %s arrived" % [i + 1 for i in closes]) if closes else "",
+        (" - item(s) %s answer requests the application has pending (SendIQ waiting; the requester reads %d tokens of the response and closes it)" % (
+            [i + 1 for i in resps], v.get("wn", 0))) if resps else "",
         json.dumps(v["progs"]), m["why"], json.dumps(m["observed"])[:400], m["outcome"], m.get("serve_error"))
 
 
